@@ -506,6 +506,11 @@ func TestC04(t *testing.T) {
 		if i%7 == 0 {
 			sc.N = 16
 		}
+		if i%48 == 5 {
+			sc.N = 72 // a larger table: retransmit limits, probe-list shuffling and state size scale with it
+			sc.Dur = 45 * time.Second
+			sc.JoinMode = "staggered"
+		}
 		sc.V6 = rng.Intn(4) == 0
 		if rng.Intn(4) == 0 {
 			sc.SlowState = []time.Duration{300 * time.Millisecond, 1200 * time.Millisecond, 2500 * time.Millisecond}[rng.Intn(3)]
